@@ -31,7 +31,7 @@ import asyncio
 import os
 import sqlite3
 import types
-from typing import Any, List, Optional
+from typing import Any, List, Optional, Union
 
 from vlib import h_idle
 from vlib.h_idle import concrete
@@ -44,6 +44,9 @@ h_idle.ensure_dbos_importable()
 import llama_agents.dbos.runtime as _rt  # noqa: E402
 from llama_agents.dbos.journal.crud import SqliteJournalCrud  # noqa: E402
 from llama_agents.dbos.journal.task_journal import TaskJournal  # noqa: E402
+from workflows import Context, Workflow, step  # noqa: E402
+from workflows.events import Event, StartEvent, StopEvent  # noqa: E402
+from workflows.plugins.basic import BasicRuntime, InternalAsyncioAdapter  # noqa: E402
 from workflows.runtime.types.named_task import PendingPull, PendingWorker  # noqa: E402
 
 ENCODED = [
@@ -84,6 +87,7 @@ OUTSIDE = [
 
 warm_sqlite()
 
+KW = 10   # journal entries of the whole-run workflow are cut at 0..KW (it records fewer than that: larger k = nothing cut)
 _MIG = os.path.join(h_idle.DBOS_DIR, "_store", "sqlite", "migrations", "0001_init.sql")
 RUN = "run1"
 KEYS = ["a:0", "b:0", "__pull__:0", "c:0"]
@@ -251,3 +255,206 @@ def ob_journal_directed_order(pa: int, la: int, pb: int, lb: int, k: int, tm: bo
 
 
 LMAX = B(1, 2)
+
+
+# ------------------------------------------------------------------------------------------------ whole control loop
+# The REAL control loop (Workflow.run -> BasicRuntime -> control_loop -> step workers) with the journal-directed wait of the
+# REAL InternalDBOSAdapter in place of the asyncio adapter's: everything DBOS itself would do (mailbox, streams, time) stays
+# the in-memory asyncio adapter = ENVIRONMENT STUB for the engine; re-executing a deterministic step stands for DBOS handing
+# back its memoised output.
+
+class EvA(Event):
+    pass
+
+
+class EvB(Event):
+    pass
+
+
+class EvC(Event):
+    pass
+
+
+class Done(Event):
+    who: str
+
+
+class FanWF(Workflow):
+    """fan-out to three workers with image-specific durations, order-sensitive join"""
+
+    def __init__(self, durations: Any, **kw: Any) -> None:
+        super().__init__(**kw)
+        self.d = durations
+        self.calls: List[str] = []
+
+    @step
+    async def fan(self, ctx: Context, ev: StartEvent) -> Union[EvA, EvB, EvC, None]:
+        self.calls.append("fan")
+        ctx.send_event(EvB())
+        ctx.send_event(EvC())
+        return EvA()
+
+    @step
+    async def wa(self, ctx: Context, ev: EvA) -> Done:
+        await asyncio.sleep(self.d[0])
+        return Done(who="a")
+
+    @step
+    async def wb(self, ctx: Context, ev: EvB) -> Done:
+        await asyncio.sleep(self.d[1])
+        return Done(who="b")
+
+    @step
+    async def wc(self, ctx: Context, ev: EvC) -> Done:
+        await asyncio.sleep(self.d[2])
+        return Done(who="c")
+
+    @step(num_workers=1)
+    async def join(self, ctx: Context, ev: Done) -> Optional[StopEvent]:
+        got = ctx.collect_events(ev, [Done, Done, Done])
+        if got is None:
+            return None
+        return StopEvent(result="".join(g.who for g in got))
+
+
+def _describe(tick: Any) -> Any:
+    t = getattr(tick, "type", type(tick).__name__)
+    if t == "step_result":
+        return (t, tick.step_name, tick.worker_id, type(tick.event).__name__,
+                tuple(type(getattr(r, "result", None)).__name__ + ":" + str(getattr(getattr(r, "result", None), "who", "")) for r in tick.result))
+    if t == "add_event":
+        return (t, type(tick.event).__name__, getattr(tick.event, "who", ""), tick.step_name)
+    return (t,)
+
+
+class _JournalAdapter(InternalAsyncioAdapter):
+    """the asyncio adapter with the DBOS adapter's journal-directed wait (and is_replaying) grafted on; records ticks"""
+
+    def __init__(self, base: InternalAsyncioAdapter, dbos_adapter: Any, ticks: List[Any]) -> None:
+        self.__dict__.update(base.__dict__)
+        self._dbos = dbos_adapter
+        self._ticks = ticks
+
+    async def wait_for_next_task(self, running: Any, pending: Any, timeout: Any = None) -> Any:
+        return await _rt.InternalDBOSAdapter.wait_for_next_task(self._dbos, running, pending, timeout)
+
+    def is_replaying(self) -> bool:
+        return self._dbos.is_replaying()
+
+    async def on_tick(self, tick: Any) -> None:
+        self._ticks.append(_describe(tick))
+        await super().on_tick(tick)
+
+
+class _JournalRuntime(BasicRuntime):
+    def __init__(self, path: str, ticks: List[Any]) -> None:
+        super().__init__()
+        self._path, self._ticks = path, ticks
+
+    def get_internal_adapter(self, workflow: Any) -> Any:
+        dbos_adapter = _rt.InternalDBOSAdapter(RUN, engine=None, db_path=self._path)  # type: ignore[arg-type]
+        return _JournalAdapter(super().get_internal_adapter(workflow), dbos_adapter, self._ticks)
+
+
+def _run_image(path: str, durations: List[int]) -> Any:
+    """one process image: a fresh runtime/adapter/workflow object over the journal at `path`, run to completion"""
+    ticks: List[Any] = []
+    out: List[Any] = []
+
+    async def main() -> None:
+        wf = FanWF(durations, timeout=None, runtime=_JournalRuntime(path, ticks))
+        out.append(await wf.run(run_id=RUN))
+
+    MiniLoop().run_until_complete(main())
+    return ticks, out[0]
+
+
+def _truncate(path: str, k: int) -> None:
+    conn = sqlite3.connect(path)
+    try:
+        conn.execute("DELETE FROM workflow_journal WHERE run_id = ? AND seq_num >= ?", (RUN, k))
+        conn.commit()
+    finally:
+        conn.close()
+
+
+def _worker_order(keys: List[str]) -> str:
+    return "".join(k[1] for k in keys if k in ("wa:0", "wb:0", "wc:0"))
+
+
+def _whole_scenario(pa: int, pb: int, k: int) -> List[str]:
+    bad: List[str] = []
+    saved = _rt.get_local_dbos_context
+    _rt.get_local_dbos_context = lambda: types.SimpleNamespace(function_id=FID)
+    try:
+        with TmpDir() as d:
+            path = os.path.join(d, "dbos.sqlite")
+            _make_db(path)
+            da = [1 + 2 * PERMS[pa].index(i) for i in range(3)]
+            db = [1 + 2 * PERMS[pb].index(i) for i in range(3)]
+            ticks_a, res_a = _run_image(path, da)                 # the uninterrupted run
+            rows_a = [r[1] for r in _rows(path)]
+            want_a = "".join("abc"[i] for i in PERMS[pa])
+            if res_a != want_a or _worker_order(rows_a) != want_a:
+                bad.append(f"A: result {res_a!r} / journal {rows_a} do not reflect the completion order {want_a}")
+            k = min(k, len(rows_a))
+            _truncate(path, k)                                    # the process had stopped after k recorded completions
+            ticks_b, res_b = _run_image(path, db)                 # recovery, other finishing order
+            rows_b = [r[1] for r in _rows(path)]
+            if rows_b[:k] != rows_a[:k]:
+                bad.append(f"B: journal prefix rewritten: {rows_b[:k]} != {rows_a[:k]}")
+            if sorted(rows_b) != sorted(rows_a):
+                bad.append(f"B: journal {rows_b} is not the uninterrupted run's multiset {rows_a}")
+            if res_b != _worker_order(rows_b):
+                bad.append(f"B: result {res_b!r} != order of the journal {rows_b}")
+            # the replayed part: ticks up to and including the last replayed step-result tick are the uninterrupted run's
+            def upto(ticks: List[Any], n: int) -> List[Any]:
+                seen, out = 0, []
+                for t in ticks:
+                    if seen >= n:
+                        break
+                    out.append(t)
+                    if t[0] == "step_result":
+                        seen += 1
+                return out
+            nw = len([x for x in rows_a[:k] if not x.startswith("__pull__")])   # worker completions among the k recorded ones
+            if upto(ticks_b, nw) != upto(ticks_a, nw):
+                bad.append(f"B: replayed ticks {upto(ticks_b, nw)} != uninterrupted {upto(ticks_a, nw)}")
+            if k >= len(rows_a) and (ticks_b != ticks_a or res_b != res_a):
+                bad.append(f"B: full replay differs: result {res_b!r} vs {res_a!r}")
+            dc = [0, 0, 0]
+            order_b = _worker_order(rows_b)
+            if sorted(order_b) == ["a", "b", "c"]:
+                for rank, who in enumerate(reversed(order_b)):
+                    dc["abc".index(who)] = 1 + 2 * rank
+            ticks_c, res_c = _run_image(path, dc)                 # second recovery: pure replay, reverse finishing order
+            if ticks_c != ticks_b or res_c != res_b:
+                bad.append(f"C: pure replay gave result {res_c!r} / ticks {ticks_c}, recorded run {res_b!r} / {ticks_b}")
+            if [r[1] for r in _rows(path)] != rows_b:
+                bad.append("C: a pure replay changed the journal")
+    finally:
+        _rt.get_local_dbos_context = saved
+    return bad
+
+
+@obligation(quick=300, thorough=600,
+            partitions_quick=[f"pa == {p} and k {c}" for p in range(6) for c in ("<= 4", ">= 5")],
+            partitions_thorough=[f"pa == {p} and k == {k}" for p in range(6) for k in range(KW + 1)],
+            what="the REAL control loop with the journal-directed wait of the real InternalDBOSAdapter (journal on sqlite): a fan-out / "
+                 "order-sensitive join workflow runs uninterrupted (any of 6 worker completion orders); the journal is cut after k "
+                 "recorded completions; a recovery with any other worker timing reproduces the uninterrupted run's ticks for the "
+                 "replayed part, keeps the journal prefix, finishes with the result its journal implies (the uninterrupted result when "
+                 "everything was recorded); a second recovery with reverse timing reproduces ticks, result and journal exactly",
+            bounds={"workflow": "fan -> 3 workers -> join (7 task completions, 2 mailbox pulls)", "completion orders": "6 x 6", "cut k": "0..KW",
+                    "process images": 3})
+def ob_recovered_run_same_execution(pa: int, pb: int, k: int) -> bool:
+    """
+    pre: 0 <= pa <= 5 and 0 <= pb <= 5 and 0 <= k <= KW
+    post: _
+    """
+    pa = concrete(pa, 0, 5)
+    pb = concrete(pb, 0, 5)
+    k = concrete(k, 0, KW)
+    bad = _whole_scenario(pa, pb, k)
+    _debug(f"whole pa={pa} pb={pb} k={k}", bad)
+    return not bad
